@@ -526,6 +526,24 @@ func (c *codecCtx) analyseDecoder(fd *ast.FuncDecl) *codecHalf {
 			}
 		}
 	})
+	// a positional decoder that walks the wire array with a variable index (a table of
+	// destinations): which position feeds which field is not visible in the syntax
+	if h.kind == "positional" {
+		ast.Inspect(fd.Body, func(n ast.Node) bool {
+			x, ok := n.(*ast.IndexExpr)
+			if !ok {
+				return true
+			}
+			if id, ok := ast.Unparen(x.X).(*ast.Ident); ok && tmps[c.info.Uses[id]] {
+				if tv, ok := c.info.Types[x.Index]; !ok || tv.Value == nil {
+					if _, isSlice := c.info.Uses[id].Type().Underlying().(*types.Slice); isSlice {
+						h.kind = "positional (variable index)"
+					}
+				}
+			}
+			return true
+		})
+	}
 	return h
 }
 
@@ -953,6 +971,68 @@ func ruleK3(p *Program, r *Reporter) {
 		}
 		return false
 	})
+	if len(t1) < 5 {
+		// the same table written as a package-level map from error name to constructor,
+		// indexed inside errorFromResult
+		ast.Inspect(fd1.Body, func(n ast.Node) bool {
+			ix, ok := n.(*ast.IndexExpr)
+			if !ok {
+				return true
+			}
+			id, ok := ast.Unparen(ix.X).(*ast.Ident)
+			if !ok {
+				return true
+			}
+			v, ok := info.Uses[id].(*types.Var)
+			if !ok || v.Parent() != pk.Types.Scope() {
+				return true
+			}
+			for _, f := range pk.Syntax {
+				for _, d := range f.Decls {
+					gd, ok := d.(*ast.GenDecl)
+					if !ok || gd.Tok != token.VAR {
+						continue
+					}
+					for _, sp := range gd.Specs {
+						vs := sp.(*ast.ValueSpec)
+						for i, nm := range vs.Names {
+							if info.Defs[nm] != v || i >= len(vs.Values) {
+								continue
+							}
+							cl, ok := ast.Unparen(vs.Values[i]).(*ast.CompositeLit)
+							if !ok {
+								continue
+							}
+							for _, el := range cl.Elts {
+								kv, ok := el.(*ast.KeyValueExpr)
+								if !ok {
+									continue
+								}
+								tv, ok := info.Types[kv.Key]
+								if !ok || tv.Value == nil || tv.Value.Kind() != constant.String {
+									continue
+								}
+								typ := ""
+								switch fv := ast.Unparen(kv.Value).(type) {
+								case *ast.FuncLit:
+									typ = returnedErrType(info, fv.Body.List)
+								case *ast.Ident:
+									if fo, ok := info.Uses[fv].(*types.Func); ok {
+										if fdecl := p.funcDecls[fo]; fdecl != nil && fdecl.Body != nil {
+											typ = returnedErrType(info, fdecl.Body.List)
+										}
+									}
+								}
+								t1[constant.StringVal(tv.Value)] = typ
+								t1pos[constant.StringVal(tv.Value)] = kv.Key.Pos()
+							}
+						}
+					}
+				}
+			}
+			return true
+		})
+	}
 	// table 2: error type -> constant, from `case *T: return OperationResult{Error: C,...}`
 	t2 := map[string]string{}
 	t2pos := map[string]token.Pos{}
